@@ -41,3 +41,18 @@ Theorem C02_realign_preserves_rows : forall (row : Type) (idx : row -> Z) (a b :
   respects idx a P -> parts_sorted idx P -> exec_plan idx P pl = spec_plan idx b P.
 Proof. exact plan_ok_sound. Qed.
 Print Assumptions C02_realign_preserves_rows.
+
+(* label slices df.loc[lo:hi] return exactly the rows whose label lies in the closed range, in order, for every partitioning with
+   truthful divisions (values equal to a division, bounds outside the divisions, open ends); a reversed slice is empty (D45) *)
+From DX Require Import Divisions DivisionsProofs Loc LocProofs.
+Theorem C02_loc_slice_rows : forall divs parts lo hi,
+  truthful divs parts -> parts <> [] -> slice_ok lo hi ->
+  concat (loc_parts divs parts lo hi) = filter (in_slice lo hi) (concat parts).
+Proof. exact loc_rows. Qed.
+Print Assumptions C02_loc_slice_rows.
+
+Theorem C02_loc_reversed_slice_empty : forall divs parts l h,
+  truthful divs parts -> parts <> [] -> (h < l)%Z ->
+  concat (loc_parts divs parts (Some l) (Some h)) = [].
+Proof. exact loc_reversed_empty. Qed.
+Print Assumptions C02_loc_reversed_slice_empty.
